@@ -367,15 +367,21 @@ def pattern_andi32(context, tree, c0, c1):
     return d
 
 
-@orbis32.pattern("reg", "SHRI32(reg, reg)", size=4, cycles=1, energy=1)
 @orbis32.pattern("reg", "SHRU32(reg, reg)", size=4, cycles=1, energy=1)
 @orbis32.pattern("reg", "SHRU16(reg, reg)", size=4, cycles=1, energy=1)
-@orbis32.pattern("reg", "SHRI16(reg, reg)", size=4, cycles=1, energy=1)
 @orbis32.pattern("reg", "SHRU8(reg, reg)", size=4, cycles=1, energy=1)
+def pattern_shru32(context, tree, c0, c1):
+    d = context.new_reg(Or1kRegister)
+    context.emit(Srl(d, c0, c1))
+    return d
+
+
+@orbis32.pattern("reg", "SHRI32(reg, reg)", size=4, cycles=1, energy=1)
+@orbis32.pattern("reg", "SHRI16(reg, reg)", size=4, cycles=1, energy=1)
 @orbis32.pattern("reg", "SHRI8(reg, reg)", size=4, cycles=1, energy=1)
 def pattern_shri32(context, tree, c0, c1):
     d = context.new_reg(Or1kRegister)
-    context.emit(Srl(d, c0, c1))
+    context.emit(Sra(d, c0, c1))
     return d
 
 
